@@ -371,7 +371,37 @@ func ruleKillArg(c *Ctx) {
 		gs := p.G(fn)
 		deadF := p.Field("lua", "LState", "Dead")
 		got := map[string]string{}
+		describe := func(conds []Cond) string {
+			desc := ""
+			for _, cd := range conds {
+				if !cd.Sense {
+					continue
+				}
+				if _, ok := loadsField(cd.V, deadF); ok {
+					desc = "Dead"
+				}
+				if b, ok := cd.V.(*ssa.BinOp); ok && b.Op == token.EQL {
+					if _, ok := loadsField(b.X, curF); ok && desc == "" {
+						desc = "CurrentThread==th"
+					}
+					if _, ok := loadsField(b.X, parentF); ok && desc == "" {
+						desc = "Parent==th"
+					}
+				}
+			}
+			if desc == "" {
+				desc = "otherwise"
+			}
+			return desc
+		}
 		allInstrs(fn, func(in ssa.Instruction) {
+			// the early-return spelling: `return "dead"` under the same tests
+			if r, isRet := in.(*ssa.Return); isRet && len(r.Results) == 1 {
+				if s, isK := constStr(r.Results[0]); isK {
+					got[s] = describe(gs.CondsAt(in.Block()))
+				}
+				return
+			}
 			ph, ok := in.(*ssa.Phi)
 			if !ok {
 				return
